@@ -6,7 +6,8 @@ P = os.path.join(os.path.dirname(os.path.dirname(os.path.abspath(__file__))), "c
 
 IMPORTS = """From LexVerif Require Import Base CharClass RangeMap Regex Spec SpecExec LexSpec Nfa Dfa NfaToDfa NfaSem Codegen
      Runtime ScanIface RulesetSem Driver SpecDef ClassAlgProofs RuntimeProofs RuntimeLemmas ScanOkProofs
-     RulesetSemProofs LexSpecProofs LexSpecFacts EndToEnd Harness.
+     RulesetSemProofs LexSpecProofs LexSpecFacts EndToEnd EndToEndModel Instance Harness.
+From LexVerif.Gen Require Import GenTables GenConsts.
 """
 
 def sim_thm(p):
@@ -142,6 +143,42 @@ Proof. exact lexer_correct. Qed.
 
 Theorem c01_certificates_sound : forall c, certs_ok_b c = true -> certs_ok c.
 Proof. exact certs_ok_b_sound. Qed.
+
+(* the same with no certificate hypothesis: the model of the whole macro pipeline is correct *)
+Theorem c01_lexer_correct_model :
+  forall benv mg (width : N -> N) tab_width (T E U : Type) (d : def) c rss (actions : nat -> action T E U),
+  benv_wf benv ->
+  compile benv mg d = Ok c ->
+  def_rulesets d = Ok rss ->
+  wf_def benv d = true ->
+  def_chars_ok benv rss ->
+  acts_distinct d ->
+  (forall a v u n, a_switch (actions a v u) = Some n -> n < length (p_switch (c_program c))) ->
+  forall whole u with_str,
+    Forall (fun ch => is_scalar ch = true) whole ->
+    (with_str = false -> RuntimeProofs.text_blind T E U actions) ->
+  forall n fuel, enough_fuel U fuel (lexer_new U whole u with_str) ->
+  exists r, spec_run benv width tab_width T E U rss actions n (s_init U whole u) r /\\
+            run_lexer width tab_width T E U (c_program c) actions n fuel
+              (lexer_new U whole u with_str) = map (outcome_of T E) r.
+Proof. exact lexer_correct_model. Qed.
+
+(* non-vacuity: a concrete definition with two rule sets, a right context, a join reachable with and
+   without an earlier accepting state, a switch target and a `$` rule meets every hypothesis *)
+Definition d_example : def :=
+  [TRuleSet name_Init
+     [RBRule (mkRule (RChar 97) (Some (RChar 98)) 0);
+      RBRule (mkRule (RCat (ROr (RChar 97) (RChar 99)) (RCat (RChar 100) (RChar 101))) None 1);
+      RBRule (mkRule (RChar 115) None 2)];
+   TRuleSet [82%N]
+     [RBRule (mkRule (RPlus (RCharSet [CRange 97 99])) None 3);
+      RBRule (mkRule REoi None 4)]].
+Example c01_hypotheses_satisfiable :
+  match compile builtin_table MAX_GUARD_SIZE d_example with
+  | Ok c => model_hyps d_example = true /\\ certs_ok_b c = true /\\ length (p_switch (c_program c)) = 2
+  | Panic _ => False
+  end.
+Proof. vm_compute. repeat split; reflexivity. Qed.
 """
 
 files = {}
@@ -169,7 +206,7 @@ Corollary c01_longest : forall (benv : builtin_env) rules w r k e,
 Proof. exact select_longest. Qed.
 """ + sim_thm("c01") + E2E,
   ["c01_flags_sound", "c01_flags_precise", "c01_flags_sound_needs_targets_ok", "c01_select_is_maximal_munch",
-   "c01_select_none", "c01_select_complete", "c01_longest"] + COMMON("c01") + ["c01_lexer_correct", "c01_certificates_sound"])
+   "c01_select_none", "c01_select_complete", "c01_longest"] + COMMON("c01") + ["c01_lexer_correct", "c01_certificates_sound", "c01_lexer_correct_model", "c01_hypotheses_satisfiable"])
 
 files["C04"] = ("""(* C04 Right context gates a match without consuming input. *)
 """ + IMPORTS + """
